@@ -63,6 +63,18 @@ def run(prog, tier):
                 gw.append((node, root['name']))
         chk.decide(not gw, 'no-shared-state', f['unit'], name, 'writes to shared objects', '%s:%d' % (f['rel'], gw[0][0]['ln'] if gw else f['ln']),
                    'writes the shared object(s) %s without synchronisation' % sorted({g for _, g in gw}), why='writes only locals, fresh heap and out-parameters')
+    # (a2) the same through aliases: a store that reaches a file-scope object through a local pointer or through the result of
+    # bsearch/lfind over a shared array (alias resolution on the abstract paths, shared with rules/c16.py)
+    from rules.c16 import alias_stores
+    na = 0
+    for name, f, leadname, e in alias_stores(prog, globs):
+        if name not in reach_all or name in MUTATORS:
+            continue
+        na += 1
+        chk.bad('no-shared-state', f['unit'], name, 'store@%s' % (e.lv[:60]), '%s:%d' % (f['rel'], e.node.get('ln', 0)),
+                'a store reaches the shared object %s through %s: %s is reachable from the thread-safe API, so concurrent calls race on it' % (leadname, e.lv[:80], name))
+    if not na:
+        chk.ok('no-shared-state', 'alias-resolved stores', 'no store of a thread-safe function reaches a file-scope object through an alias', 'src')
     # (b) MT-unsafe services: reported at the direct call site, with the entry points that reach it
     for name in sorted(reach_all & set(funcs)):
         f = funcs[name]
